@@ -33,6 +33,9 @@ var solvers = []solverSpec{
 	{"cvc5", func(f string, t time.Duration) []string {
 		return []string{"cvc5", "--lang=smt2", fmt.Sprintf("--tlimit=%d", t.Milliseconds()), f}
 	}},
+	{"z3-new-rel0", func(f string, t time.Duration) []string {
+		return []string{"z3-new", "smt.relevancy=0", fmt.Sprintf("-T:%d", int(t.Seconds())+1), f}
+	}},
 	{"z3", func(f string, t time.Duration) []string {
 		return []string{"z3", fmt.Sprintf("-T:%d", int(t.Seconds())+1), f}
 	}},
@@ -136,9 +139,13 @@ func solveOne(o *Obligation, dir string, timeout time.Duration, all bool, order 
 // solveAll discharges obligations in parallel.
 func solveAll(obls []*Obligation, dir string, timeout time.Duration, all bool, par int, seed int64) {
 	_ = os.MkdirAll(dir, 0o755)
+	// quick tier: z3 5.1 in two configurations and cvc5; the thorough tier adds z3 4.8.12
 	order := []int{0, 1, 2}
 	if seed%2 == 1 {
 		order = []int{1, 0, 2}
+	}
+	if all {
+		order = append(order, 3)
 	}
 	sem := make(chan struct{}, par)
 	var wg sync.WaitGroup
